@@ -574,8 +574,10 @@ async fn run_inner(cfg: &Cfg, out: &mut Outcome) {
             // unsolicited control poll (C02): at an idle point a poll nobody asked for must not
             // make observable progress; if it does, some enabling event failed to wake the dispatch
             let mut control_clean = true;
-            let want_iso = cfg.isolated_strays && dispatch_alive && !eof_sent && script.is_empty() && rng.chance(1, 6);
-            if cfg.control_polls && dispatch_alive && script.is_empty() && (want_iso || rng.chance(1, 4)) {
+            let want_iso = cfg.isolated_strays && cfg.fault.is_none() && dispatch_alive && !eof_sent && script.is_empty() && rng.chance(1, 6);
+            // (an extra poll would itself consume the k-th transport call of a pending fault plan)
+            let fault_pending = cfg.fault.is_some() && st.borrow().fault_fired.is_none();
+            if cfg.control_polls && !fault_pending && dispatch_alive && script.is_empty() && (want_iso || rng.chance(1, 4)) {
                 let before_sent = st.borrow().sent.len();
                 let before_recv = st.borrow().recv.len();
                 let before_wakes: Vec<usize> = callers
